@@ -18,6 +18,10 @@ var headingTexts = []string{"a", "A", "a-1", "a_1", "a 1", "", "#", "!!!", "é",
 // once too often, or cached in the wrong form, becomes visible.
 var tricky = []string{"&amp;amp;", "&amp;lt;b&amp;gt;", "&#38;#35;", "\\\\*", "\\&amp;", "%2520", "&amp;colon;", "a%20b%25", "\\\\\\[", "&#x26;quot;", "x&amp;amp;y=1", "\\%41"}
 
+// attribute names: html.GlobalAttributeFilter's, some of the per-element extras, and names no
+// filter lets through
+var attrNames = strings.Split("accesskey,autocapitalize,autofocus,class,contenteditable,dir,draggable,enterkeyhint,hidden,id,inert,inputmode,is,itemid,itemprop,itemref,itemscope,itemtype,lang,part,role,slot,spellcheck,style,tabindex,title,translate,title,lang,hidden,itemref,inert,slot,autofocus,draggable,align,width,cite,data-x,onclick,aria-label", ",")
+
 func word(r *Rng) string {
 	if r.Chance(1, 12) {
 		return pick(r, tricky)
@@ -42,7 +46,23 @@ func sentence(r *Rng, n int) string {
 }
 
 // families of constructs; each generator returns a complete small document.
-var families = []string{"refdef", "refuse", "footnote", "footuse", "heading", "typo", "table", "openend", "fence", "attr",
+// uniq: a token that no other document of the process contains (with overwhelming
+// probability): streams of documents with many of them take bounded caches, memo tables and
+// interning maps of the code under test past their capacity, where they evict, reset or grow.
+func uniq(r *Rng) string {
+	const al = "abcdefghijklmnopqrstuvwxyz0123456789"
+	n := r.Range(5, 8)
+	b := make([]byte, n)
+	for i := range b {
+		b[i] = al[r.Intn(len(al))]
+	}
+	if b[0] >= '0' && b[0] <= '9' {
+		b[0] = 'q'
+	}
+	return string(b)
+}
+
+var families = []string{"manyuniq", "refdef", "refuse", "footnote", "footuse", "heading", "typo", "table", "openend", "fence", "attr",
 	"deflist", "tasklist", "linkify", "strike", "cjk", "entity", "emph", "html", "list", "quote", "link", "para", "unilabel"}
 
 func genFamily(r *Rng, fam string) []byte {
@@ -67,6 +87,48 @@ func genFamily(r *Rng, fam string) []byte {
 		use = strings.ToUpper(label)
 	}
 	switch fam {
+	case "manyuniq": // 30-80 fresh tokens of one kind in one document
+		k := r.Range(30, 80)
+		toks := make([]string, k)
+		for i := range toks {
+			toks[i] = uniq(r)
+		}
+		switch r.Intn(6) {
+		case 0: // reference labels: definitions and uses
+			for _, t := range toks {
+				fmt.Fprintf(&b, "[%s]: /u/%s\n", t, t)
+			}
+			b.WriteString("\n")
+			for _, t := range toks {
+				fmt.Fprintf(&b, "[%s] ", strings.ToUpper(t))
+			}
+			b.WriteString("\n")
+		case 1: // undefined labels only
+			for _, t := range toks {
+				fmt.Fprintf(&b, "[%s] [x][%s]\n", t, t)
+			}
+		case 2: // headings
+			for _, t := range toks {
+				fmt.Fprintf(&b, "## %s %s\n", t, pick(r, []string{"", "x", t}))
+			}
+		case 3: // footnotes
+			for _, t := range toks {
+				fmt.Fprintf(&b, "w[^%s] ", t)
+			}
+			b.WriteString("\n\n")
+			for _, t := range toks {
+				fmt.Fprintf(&b, "[^%s]: %s\n", t, t)
+			}
+		case 4: // destinations, titles, autolinks
+			for _, t := range toks {
+				fmt.Fprintf(&b, "[a](/%s?q=%s \"%s\") <http://%s.example/> www.%s.com &%s;\n", t, t, t, t, t, t)
+			}
+		default: // words with inline markup, attributes
+			for _, t := range toks {
+				fmt.Fprintf(&b, "*%s* `%s` ~~%s~~ \"%s\"\n", t, t, t, t)
+			}
+			fmt.Fprintf(&b, "\n# h {#%s .%s title=%s}\n", toks[0], toks[1], toks[2])
+		}
 	case "refdef": // definer of link references
 		fmt.Fprintf(&b, "[%s]: /url-%d?a=1&b=%%20 %s\n\n[%s] and [%s][] and ![%s]\n", label, r.Intn(9), genTitle(r), use, label, use)
 		if r.Chance(1, 2) {
@@ -153,7 +215,33 @@ func genFamily(r *Rng, fam string) []byte {
 		}
 		fmt.Fprintf(&b, "after %s\n", word(r))
 	case "attr":
-		fmt.Fprintf(&b, "# %s {#id-%s .c%d data-x=\"%s\"}\n\n%s\n=== {#x}\n", word(r), word(r), r.Intn(3), word(r), word(r))
+		if r.Chance(1, 3) {
+			fmt.Fprintf(&b, "# %s {#id-%s .c%d data-x=\"%s\"}\n\n%s\n=== {#x}\n", word(r), word(r), r.Intn(3), word(r), word(r))
+			break
+		}
+		// several attributes per heading, drawn from every name the renderer's attribute filters
+		// know (names sharing a hash slot of a filter included) and some it must drop
+		for i := r.Range(1, 3); i > 0; i-- {
+			var as []string
+			for j := r.Range(1, 5); j > 0; j-- {
+				n := pick(r, attrNames)
+				switch r.Intn(4) {
+				case 0:
+					as = append(as, fmt.Sprintf("%s=%s", n, pick(r, words[:11])))
+				case 1:
+					as = append(as, fmt.Sprintf("%s=\"%s &amp; <%d>\"", n, word(r), r.Intn(9)))
+				case 2:
+					as = append(as, pick(r, []string{"#i" + pick(r, words[:8]), ".k" + pick(r, words[:8])}))
+				default:
+					as = append(as, fmt.Sprintf("%s='%s'", n, pick(r, words[:11])))
+				}
+			}
+			if r.Chance(1, 4) {
+				fmt.Fprintf(&b, "%s\n%s {%s}\n\n", word(r), pick(r, []string{"===", "---"}), strings.Join(as, " "))
+			} else {
+				fmt.Fprintf(&b, "%s %s {%s}\n\n", strings.Repeat("#", r.Range(1, 6)), word(r), strings.Join(as, " "))
+			}
+		}
 	case "deflist":
 		fmt.Fprintf(&b, "%s\n: %s\n: %s\n\n%s\n\n: loose %s\n", word(r), sentence(r, 2), word(r), word(r), word(r))
 	case "tasklist":
@@ -557,7 +645,7 @@ func genComposite(r *Rng, k int) []byte {
 }
 
 // herd: k documents of the same construct family with different parameters.
-var herdFamilies = []string{"footuse", "linkify", "strike", "tasklist", "cjk", "unilabel", "fence", "list", "link", "refdef", "emph", "table", "footnote", "heading", "typo", "openend", "entity", "quote", "deflist", "attr", "html"}
+var herdFamilies = []string{"manyuniq", "footuse", "linkify", "strike", "tasklist", "cjk", "unilabel", "fence", "list", "link", "refdef", "emph", "table", "footnote", "heading", "typo", "openend", "entity", "quote", "deflist", "attr", "html"}
 
 // biasConfig switches on what a construct family needs in order to mean anything (a herd of
 // footnote documents on an instance without the Footnote extension explores nothing), and
